@@ -22,7 +22,8 @@ Proved (all for every class, byte order, object; hypotheses explicit):
 Hypotheses of 4: save succeeded into a non-failed unbudgeted stream; no address translation;
 `LayoutOk` (= C04's `layout_disjoint`, taken as a hypothesis: the written ranges are pairwise disjoint,
 offsets < 2^63) — so all rungs (no segments / flat / nested) are covered at once; `FieldsFit`.
-Not proved here: `LayoutOk` itself (C04); section *names* as strings of the reloaded file are the
+`layoutOk_of_zones` derives `LayoutOk` from exactly the conclusions of C04's `layout_disjoint` plus
+table bookkeeping.  Not proved here: `LayoutOk` itself (C04); section *names* as strings of the reloaded file are the
 composition of `sectionsAdd_name` (offset points at the name in the table) with the data clause of
 `save_decode_fields` for the `.shstrtab` section and C08's `get_refines` — not spelled out as one
 theorem; compression interfaces are outside the model.
@@ -697,7 +698,7 @@ structure LayoutOk (c : Cls) (enc : Enc) (h : Bytes) (secs : List SecBuf) (segs 
   disjoint : (objWrites c enc h secs segs).Pairwise WDisj
   shoffLt : (Hdr.e_shoff c enc h).toNat < 9223372036854775808
   phoffLt : (Hdr.e_phoff c enc h).toNat < 9223372036854775808
-  offLt : ∀ b ∈ secs, b.offset.toNat < 9223372036854775808
+  offLt : ∀ b ∈ secs, secWritten b = true → b.offset.toNat < 9223372036854775808
 
 /-- **save_decodes** (all rungs at once — objects without segments, flat and nested segments —
     because the layout fact the rungs differ in is the hypothesis `LayoutOk`): after a successful
@@ -1071,5 +1072,161 @@ theorem save_decode_header {o : Obj} {os : OStream} {r : SaveRes} (hs : save o o
   · rw [at0 _ (vn _ (by decide)), u9]
   · rw [at0 _ (vn _ (by decide)), ← a11, esn]
   · rw [at0 _ (vn _ (by decide)), ← a9, epn]
+
+/-! ### 6. `LayoutOk` from zone facts (the interface to C04) -/
+
+/-- the section's data are written by `save` -/
+def Written (b : SecBuf) : Prop :=
+  b.stype ≠ BitVec.ofNat 32 SHT_NOBITS ∧ b.stype ≠ BitVec.ofNat 32 SHT_NULL ∧ b.size ≠ 0 ∧ b.data.isSome = true
+
+theorem secWrites_mem {c : Cls} {enc : Enc} {shoff : BitVec 64} {se : BitVec 16} {b : SecBuf} {w : Nat × Bytes}
+    (hw : w ∈ secWrites c enc shoff se b) :
+    (w.1 = shoff.toNat + se.toNat * b.index ∧ w.2.length = shdrSize c) ∨
+    (Written b ∧ w.1 = b.offset.toNat ∧ w.2.length ≤ b.size.toNat) := by
+  unfold secWrites at hw
+  rcases List.mem_cons.1 hw with h | h
+  · left; rw [h]; exact ⟨rfl, encodeShdr_length c enc b⟩
+  · right
+    split at h
+    · rename_i hc
+      simp only [List.mem_singleton] at h
+      rw [h]
+      simp only [Bool.and_eq_true, bne_iff_ne, ne_eq] at hc
+      refine ⟨⟨hc.1.1.1, hc.1.1.2, hc.1.2, hc.2⟩, rfl, ?_⟩
+      simp only [List.length_take]; omega
+    · cases h
+
+theorem written_iff (b : SecBuf) : secWritten b = true ↔ Written b := by
+  unfold secWritten Written
+  simp only [Bool.and_eq_true, bne_iff_ne, ne_eq]
+  constructor
+  · rintro ⟨⟨⟨a, b'⟩, c'⟩, d⟩; exact ⟨a, b', c', d⟩
+  · rintro ⟨a, b', c', d⟩; exact ⟨⟨⟨a, b'⟩, c'⟩, d⟩
+
+theorem mul_index_disj {se i j n : Nat} (hn : n ≤ se) (hne : i ≠ j) (base : Nat) :
+    base + se * i + n ≤ base + se * j ∨ base + se * j + n ≤ base + se * i := by
+  rcases Nat.lt_or_gt_of_ne hne with hlt | hgt
+  · left
+    have : se * i + se ≤ se * j := by rw [← Nat.mul_succ]; exact Nat.mul_le_mul_left _ hlt
+    omega
+  · right
+    have : se * j + se ≤ se * i := by rw [← Nat.mul_succ]; exact Nat.mul_le_mul_left _ hgt
+    omega
+
+/-- the writes of the sections do not touch each other -/
+theorem secWrites_pairwise (c : Cls) (enc : Enc) (SO : BitVec 64) (SE : BitVec 16) (lo : Nat) (secs : List SecBuf)
+    (hse : shdrSize c ≤ SE.toNat)
+    (hsecIdx : secs.Pairwise (fun a b => a.index ≠ b.index))
+    (hdata : ∀ b ∈ secs, Written b → lo ≤ b.offset.toNat ∧ b.offset.toNat + b.size.toNat ≤ SO.toNat)
+    (hdisj : secs.Pairwise (fun a b => Written a → Written b →
+      a.offset.toNat + a.size.toNat ≤ b.offset.toNat ∨ b.offset.toNat + b.size.toNat ≤ a.offset.toNat)) :
+    (secs.flatMap (secWrites c enc SO SE)).Pairwise WDisj := by
+  induction secs with
+  | nil => exact List.Pairwise.nil
+  | cons s rest ih =>
+    simp only [List.flatMap_cons]
+    rw [List.pairwise_append]
+    obtain ⟨hi1, hi2⟩ := List.pairwise_cons.1 hsecIdx
+    obtain ⟨hd1, hd2⟩ := List.pairwise_cons.1 hdisj
+    refine ⟨?_, ih hi2 (fun b hb => hdata b (List.mem_cons_of_mem _ hb)) hd2, ?_⟩
+    · -- the record and the data of one section
+      unfold secWrites
+      split
+      · rename_i hc
+        have hw : Written s := (written_iff s).1 hc
+        have := (hdata s List.mem_cons_self hw).2
+        refine List.Pairwise.cons (fun w hw' => ?_) (List.Pairwise.cons (fun _ h => by cases h) List.Pairwise.nil)
+        simp only [List.mem_singleton] at hw'
+        subst hw'
+        unfold WDisj
+        right
+        simp only [List.length_take]
+        omega
+      · exact List.Pairwise.cons (fun _ h => by cases h) List.Pairwise.nil
+    · -- one section against another
+      intro a ha b hb
+      obtain ⟨s', hs', hbs⟩ := List.mem_flatMap.1 hb
+      have hne : s.index ≠ s'.index := hi1 s' hs'
+      have hdd := hd1 s' hs'
+      unfold WDisj
+      rcases secWrites_mem ha with ⟨ea, la⟩ | ⟨wa, ea, la⟩ <;>
+      rcases secWrites_mem hbs with ⟨eb, lb⟩ | ⟨wb, eb, lb⟩
+      · rw [ea, eb, la, lb]
+        exact mul_index_disj hse hne _
+      · right; rw [ea, eb]
+        have := (hdata s' (List.mem_cons_of_mem _ hs') wb).2
+        omega
+      · left; rw [ea, eb]
+        have := (hdata s List.mem_cons_self wa).2
+        omega
+      · rw [ea, eb]
+        rcases hdd wa wb with h' | h'
+        · left; omega
+        · right; omega
+
+/-- **`LayoutOk` from zone facts** — the hypotheses are literally the conclusions of C04's
+    `layout_disjoint` (data of file-occupying sections pairwise disjoint and inside
+    `[eh + pht, shoff)`) plus table bookkeeping that holds for every created or loaded object (the
+    header fits in `eh` bytes, program header records inside `[eh, eh + pht)`, record sizes as the
+    class prescribes, distinct indices) and the size assumption `file < 2^63`. -/
+theorem layoutOk_of_zones (c : Cls) (enc : Enc) (h : Bytes) (secs : List SecBuf) (segs : List Seg) (eh pht : Nat)
+    (hlen : h.length ≤ eh)
+    (hse : shdrSize c ≤ (Hdr.e_shentsize c enc h).toNat) (hpe : phdrSize c ≤ (Hdr.e_phentsize c enc h).toNat)
+    (hsegIn : ∀ g ∈ segs, eh ≤ (Hdr.e_phoff c enc h).toNat + (Hdr.e_phentsize c enc h).toNat * g.index ∧
+      (Hdr.e_phoff c enc h).toNat + (Hdr.e_phentsize c enc h).toNat * g.index + phdrSize c ≤ eh + pht)
+    (hsegIdx : segs.Pairwise (fun a b => a.index ≠ b.index))
+    (hsecIdx : secs.Pairwise (fun a b => a.index ≠ b.index))
+    (hdata : ∀ b ∈ secs, Written b → eh + pht ≤ b.offset.toNat ∧
+      b.offset.toNat + b.size.toNat ≤ (Hdr.e_shoff c enc h).toNat)
+    (hdisj : secs.Pairwise (fun a b => Written a → Written b →
+      a.offset.toNat + a.size.toNat ≤ b.offset.toNat ∨ b.offset.toNat + b.size.toNat ≤ a.offset.toNat))
+    (hsmall : ∀ b ∈ secs, (Hdr.e_shoff c enc h).toNat + (Hdr.e_shentsize c enc h).toNat * b.index + shdrSize c <
+      9223372036854775808)
+    (hphs : (Hdr.e_phoff c enc h).toNat < 9223372036854775808)
+    (hshs : (Hdr.e_shoff c enc h).toNat < 9223372036854775808)
+    (hzone : eh + pht ≤ (Hdr.e_shoff c enc h).toNat) :
+    LayoutOk c enc h secs segs := by
+  refine ⟨?_, hshs, hphs, fun b hb hw => ?_⟩
+  · unfold objWrites
+    generalize hso : (Hdr.e_shoff c enc h) = SO at *
+    generalize hsen : (Hdr.e_shentsize c enc h) = SE at *
+    generalize hpo : (Hdr.e_phoff c enc h) = PO at *
+    generalize hpen : (Hdr.e_phentsize c enc h) = PE at *
+    rw [List.pairwise_cons]
+    constructor
+    · -- the ELF header against everything else
+      intro w hw
+      unfold WDisj
+      simp only
+      rcases List.mem_append.1 hw with hw | hw
+      · obtain ⟨b, hb, hwb⟩ := List.mem_flatMap.1 hw
+        rcases secWrites_mem hwb with ⟨e, _⟩ | ⟨wr, e, _⟩
+        · left; rw [e]; have := hzone; omega
+        · left; rw [e]; have := (hdata b hb wr).1; omega
+      · obtain ⟨g, hg, rfl⟩ := List.mem_map.1 hw
+        left; simp only [segWrite]; have := (hsegIn g hg).1; omega
+    · rw [List.pairwise_append]
+      refine ⟨?_, ?_, ?_⟩
+      · exact secWrites_pairwise c enc SO SE (eh + pht) secs hse hsecIdx hdata hdisj
+      · -- program header records among themselves
+        rw [List.pairwise_map]
+        refine hsegIdx.imp ?_
+        intro a b hne
+        unfold WDisj segWrite
+        simp only [encodePhdr_length]
+        exact mul_index_disj hpe hne _
+      · -- sections against program header records
+        intro a ha b hb
+        obtain ⟨s, hs, has⟩ := List.mem_flatMap.1 ha
+        obtain ⟨g, hg, rfl⟩ := List.mem_map.1 hb
+        unfold WDisj
+        simp only [segWrite, encodePhdr_length]
+        have hgi := hsegIn g hg
+        rcases secWrites_mem has with ⟨ea, la⟩ | ⟨wa, ea, la⟩
+        · right; rw [ea]; omega
+        · right; rw [ea]; have := (hdata s hs wa).1; omega
+  · have := hsmall b hb
+    have := (hdata b hb ((written_iff b).1 hw)).2
+    omega
 
 end ElfioVerif.C03
